@@ -95,6 +95,12 @@ def rand_stream(rng, npk, big=False):
         layer, st = rng.choice([5, 6]), rng.randrange(16)
         ids[0] = (ids[0][0], (layer << 12) | st)
         ids[1] = (ids[1][0], (layer << 12) | (st + 32))
+    elif nlinks >= 2 and rng.random() < 0.4:
+        # one FEE id read out through two different links
+        if ids[1][0] == ids[0][0]:
+            ids[1] = ((ids[0][0] + 1) % 256, ids[0][1])
+        else:
+            ids[1] = (ids[1][0], ids[0][1])
     pkts = []
     for k in range(npk):
         link, fee = rng.choice(ids)
